@@ -101,11 +101,11 @@ def runWrap (old : Bool) (backend : String) (compress : Bool) (P : Toy.Params) (
   match b?, backend with
   | some b, _ =>
     if compress then
-      let L := Toy.encLib P
+      let L := Toy.encLib P b
       if old then wrapTrace (fun st i r f => Sqfs.Xfrm.Old.wrapProcess L b true st i r f) L.init calls []
       else wrapTrace (fun st i r f => wrapProcess L b true st i r f) L.init calls []
     else
-      let L := Toy.decLib P
+      let L := Toy.decLib P b
       if old then wrapTrace (fun st i r f => Sqfs.Xfrm.Old.wrapProcess L b false st i r f) L.init calls []
       else wrapTrace (fun st i r f => wrapProcess L b false st i r f) L.init calls []
   | none, "zstd" =>
